@@ -133,6 +133,7 @@ func runLoginProduct(res *core.Result) {
 	var outcomes core.Outcomes
 	var samples []any
 	var smu sync.Mutex
+	sampled := map[string]bool{}
 	var next int64 = -1
 	var stopped atomic.Bool
 	var wg sync.WaitGroup
@@ -168,9 +169,10 @@ func runLoginProduct(res *core.Result) {
 						if v != nil {
 							v.Sub = "login-product"
 							res.Violate(*v)
-						} else if i%1777 == 3 && pw == "p1" {
+						} else if strings.Contains(out, "accepted") || strings.Contains(out, "hex") {
 							smu.Lock()
-							if len(samples) < 3 {
+							if !sampled[out] && len(samples) < 3 && i%7 == 5 {
+								sampled[out] = true
 								samples = append(samples, map[string]any{"description": strings.TrimSpace(dd.JSON()),
 									"username": ustr(u), "password": pw, "outcome": out})
 							}
@@ -243,6 +245,7 @@ func aliasDo(c *aliasCase, held *string) *core.Violation {
 	first := &loginCase{Desc: dd, User: sp("alice"), Pw: "p1"}
 	_, perms, err := d.GetPermission(name, group.ClientCredentials{Username: first.User, Password: first.Pw})
 	if v, _ := judge("C08", first, err == nil, "alice", perms, err); v != nil {
+		*held = "!first-login"
 		return v
 	}
 	before := append([]string(nil), perms...)
@@ -297,13 +300,22 @@ func runAlias(res *core.Result) {
 	var outcomes core.Outcomes
 	var samples []any
 	edits := aliasEdits()
+	reported, tainted := 0, false
+cases:
 	for _, r := range roleKinds {
 		for f := 0; f < 4; f++ {
 			for _, e := range edits {
 				c := &aliasCase{r.Name, f&1 != 0, f&2 != 0, e}
 				v, held := aliasRun(c)
 				n++
+				if v != nil && held == "!first-login" && reported > 0 {
+					// the very first login of a fresh case is wrong after an
+					// earlier violation: unrestorable package-level state
+					tainted = true
+					break cases
+				}
 				if v != nil {
+					reported++
 					v.Sub = "alias"
 					res.Violate(*v)
 					outcomes.Add(v.Signature)
@@ -316,7 +328,11 @@ func runAlias(res *core.Result) {
 			}
 		}
 	}
+	note := ""
+	if tainted {
+		note = "stopped early: after a reported violation the first login of a fresh case was already wrong (package-level state of the code under test damaged beyond what the harness restores)"
+	}
 	res.AddSub(core.Sub{Name: "alias", States: n, Transitions: n * 5, Executions: n, Outcomes: outcomes.N(),
-		Exhaustive: true, Samples: samples, WallS: time.Since(start).Seconds(),
+		Exhaustive: !tainted, Note: note, Samples: samples, WallS: time.Since(start).Seconds(),
 		Bound: fmt.Sprintf("%d roles x 4 flag settings x %d sequences of <=2 moderation kinds applied (real Init + handleAction) to the session holding the returned slice, then 4 re-logins and a role-table comparison each", len(roleKinds), len(edits))})
 }
